@@ -81,7 +81,7 @@ def edit(rng, text, kinds_wanted=None):
             ln2 += " " * rng.randint(1, 3)
             tags.add("trailing-space")
         if "comment-eol" in ops and ln2.strip() and not ln2.endswith(" ") and rng.random() < 0.4:
-            ln2 += rng.choice([" # comment", "  # x = 1 | 2", " #", " # \"quoted\" (text) [0]", " # squeeze mode 0,", " # rows 1, 2,  ", " # 7,"] + EXOTIC_COMMENTS)
+            ln2 += rng.choice([" # comment", "  # x = 1 | 2", " #", " # \"quoted\" (text) [0]", " # squeeze mode 0,", " # rows 1, 2,  ", " # 7,", " # tuned in C:\\runs\\2021\\", " # \\alpha = 1/2 \\\\", " # ----\\"] + EXOTIC_COMMENTS)
             tags.add("comment-eol")
         out.append(ln2)
         # own-line comments / blank lines: outside array bodies (not after an array head or row that is followed by a row)
@@ -89,7 +89,7 @@ def edit(rng, text, kinds_wanted=None):
         after_for_head = k == "for-head"
         if not in_array and not after_for_head:
             if "comment-line" in ops and rng.random() < 0.25:
-                out.append(rng.choice(["# a comment", "#", "# Op(1) | 0", "#  spaced   comment ", "# first row is row 0,", "# 1,2, "] + [c.lstrip() for c in EXOTIC_COMMENTS]))
+                out.append(rng.choice(["# a comment", "#", "# Op(1) | 0", "#  spaced   comment ", "# first row is row 0,", "# 1,2, ", "# see D:\\data\\", "# \\"] + [c.lstrip() for c in EXOTIC_COMMENTS]))
                 tags.add("comment-line")
             if "blank" in ops and rng.random() < 0.25:
                 out.append("")
